@@ -182,6 +182,31 @@ def splitmix(seed, idx):
     return v or 1
 
 
+def determinism_summary():
+    p = os.path.join(VERIF, "selftest_determinism.json")
+    try:
+        d = json.load(open(p))
+        return {"processes_compared": d.get("processes"), "divergent_seeds": d.get("divergent"), "at": d.get("at")}
+    except Exception:
+        return None
+
+
+def seeded_summary(prop):
+    root = os.path.join(VERIF, "seeded")
+    out = {"confirmed": 0, "caught": 0}
+    try:
+        for dn in sorted(os.listdir(root)):
+            mp = os.path.join(root, dn, "meta.json")
+            if not dn.startswith(prop) or not os.path.exists(mp):
+                continue
+            m = json.load(open(mp))
+            out["confirmed"] += 1 if m.get("confirmed") else 0
+            out["caught"] += 1 if m.get("caught") else 0
+    except Exception:
+        return None
+    return out
+
+
 def load_known():
     p = os.path.join(VERIF, "known_findings.json")
     if not os.path.exists(p):
@@ -451,6 +476,11 @@ def run_check(prop, spec, tier, seed, replay, cdir, key, instr, outdir, t0):
         "real_vs_stub": spec.get("real_vs_stub", {}),
         "build_key": key,
         "known_findings_seen": sorted(seen_known),
+        "sub_seeds": [ss for (_, ss, _, _, _) in procs],
+        "simulated_seconds": counters.get("sim_seconds"),
+        "scheduler_steps": counters.get("sched_steps"),
+        "determinism_selftest": determinism_summary(),
+        "seeded_changes_caught": seeded_summary(prop),
         "infra_messages": infra_msgs[:10],
     }
     ev = {
